@@ -9,7 +9,7 @@
 (***************************************************************************)
 EXTENDS Naturals, Integers, Sequences, FiniteSets, SequencesExt, TLC
 
-CONSTANTS Num10, Num16, NumC, DecStr, HexStr, StrRank, NumF, NormF, FCanon
+CONSTANTS Num10, Num16, NumC, DecStr, HexStr, StrRank, NumF, NormF, FCanon, HexPfx
 INSTANCE KEval
 
 RECURSIVE Refs(_)
